@@ -16,13 +16,17 @@
 
 static int g_bump;
 static int bump(void) { return ++g_bump; }
-typedef struct { int bumps; int ret; int continued; } res_t;
+typedef struct { int bumps; int ret; int continued; int elses; } res_t;
 static res_t *R;
 
 #define D_PROBE(name, MAC) static void name(void) { MAC(("probe %d\n", bump())); R->continued = 1; }
 D_PROBE(p_d_options, D_OPTIONS) D_PROBE(p_d_obj, D_OBJ) D_PROBE(p_d_conf, D_CONF) D_PROBE(p_d_mem, D_MEM) D_PROBE(p_d_strings, D_STRINGS) D_PROBE(p_d_parse, D_PARSE) D_PROBE(p_d_never, D_NEVER)
 D_PROBE(p_dprintf, DPRINTF) D_PROBE(p_dprintf1, DPRINTF1) D_PROBE(p_dprintf2, DPRINTF2) D_PROBE(p_dprintf3, DPRINTF3) D_PROBE(p_dprintf4, DPRINTF4) D_PROBE(p_dprintf5, DPRINTF5)
 D_PROBE(p_dprintf6, DPRINTF6) D_PROBE(p_dprintf7, DPRINTF7) D_PROBE(p_dprintf8, DPRINTF8) D_PROBE(p_dprintf9, DPRINTF9)
+/* a D_* statement is one statement: as the un-braced arm of an if it leaves the else to that if */
+static volatile int g_cond;
+static void p_d_if_true(void) { g_cond = 1; if (g_cond) D_CONF(("probe %d\n", bump())); else R->elses++; R->continued = 1; }
+static void p_d_if_false(void) { g_cond = 0; if (g_cond) D_CONF(("probe %d\n", bump())); else R->elses++; R->continued = 1; }
 static void f_assert(int c) { ASSERT(c ? 1 : (bump(), 0)); R->continued = 1; }
 static int f_assert_rval(int c) { ASSERT_RVAL(c ? 1 : (bump(), 0), 41); R->continued = 1; return 7; }
 static int f_notreached_rval(void) { ASSERT_NOTREACHED_RVAL(42); R->continued = 1; return 7; }
@@ -58,6 +62,7 @@ static const probe_t PROBES[] = {
     { "ASSERT_NOTREACHED_RVAL(42)", p_notreached_rval, G_NOTREACHED_RVAL, 42, 0 },
     { "REQUIRE(true)", p_require_t, G_REQUIRE_T, 0, 0 }, { "REQUIRE(false)", p_require_f, G_REQUIRE_F, 0, 0 }, { "REQUIRE_RVAL(true)", p_require_rval_t, G_REQUIRE_T, 0, 0 }, { "REQUIRE_RVAL(false,43)", p_require_rval_f, G_REQUIRE_RVAL_F, 43, 0 },
     { "ASSERT_RVAL(false,41) on a condition containing \"100%%\"", p_assert_pct, G_ASSERT_RVAL_F, 41, 0 }, { "REQUIRE_RVAL(false,43) on a condition containing \"100%%\"", p_require_pct, G_REQUIRE_RVAL_F, 43, 0 },
+    { "if (true) D_CONF(...); else counter++;", p_d_if_true, G_DLEVEL, 3, 0 }, { "if (false) D_CONF(...); else counter++;", p_d_if_false, G_NEVER, 0, 0 },
     { "libast_dprintf", p_prim_dprintf, G_PRIM, 0, 0 }, { "libast_print_warning", p_prim_warning, G_PRIM, 0, 0 }, { "libast_print_error", p_prim_error, G_PRIM, 0, 0 },
     { "D_CONF in spiftool_version_compare", p_lib_conf, G_LIB, 3, 1 }, { "D_OPTIONS in spifopt_parse", p_lib_options, G_LIB, 1, 1 }, { "D_OBJ in spif_mbuff_init_from_fp", p_lib_obj, G_LIB, 2, 1 }, { "D_MEM in spifmem_malloc", p_lib_mem, G_LIB, 5, 1 },
 };
@@ -136,6 +141,7 @@ static void g_case(uint64_t idx, void *ctx)
         if (p->gate != G_LIB && (r.bumps != 0) != want_eval) FAIL(site, "model:argument-evaluation", shape, "arguments/condition were %sevaluated (%d side effects), expected %s", r.bumps ? "" : "not ", r.bumps, want_eval ? "evaluation" : "none");
         if (check_out && (total > 0) != want_out) FAIL(site, want_out ? "model:no-output" : "model:unexpected-output", shape, "%ld bytes written to stderr, expected %s: %.120s", total, want_out ? "output" : "silence", err);
         if (check_out && strstr(p->name, "100%") && strstr(err, "100%") && !strstr(err, "100%%")) FAIL(site, "model:diagnostic-garbled", shape, "the condition's text was used as a format: %.160s", err);
+        if (!strncmp(p->name, "if (", 4) && r.elses != (p->fn == p_d_if_false ? 1 : 0)) FAIL(site, "model:control-flow", shape, "the else arm ran %d times with the condition %s", r.elses, p->fn == p_d_if_false ? "false" : "true");
         if (p->gate >= G_ASSERT_T && p->gate <= G_REQUIRE_RVAL_F) {
             if (r.continued != want_cont) FAIL(site, "model:control-flow", shape, "the function %s after the statement, expected it to %s", r.continued ? "continued" : "returned", want_cont ? "continue" : "return");
             if (want_ret >= 0 && r.ret != want_ret) FAIL(site, "model:return-value", shape, "returned %d, expected %d", r.ret, want_ret);
